@@ -88,7 +88,7 @@ class MethodSpec:
     pass
 
 
-def gen_method(rng, nslots=None, misaligned=False, allow_new=True, max_tries=5, plain_only_simple=False, wild_targets=True):
+def gen_method(rng, nslots=None, misaligned=False, allow_new=True, max_tries=5, plain_only_simple=False, wild_targets=True, front_payloads=True):
     n = nslots or rng.choice([3, 5, 8, 12, 20, 40])
     slots = []  # dict(kind=..., ...)
     for i in range(n):
@@ -116,6 +116,9 @@ def gen_method(rng, nslots=None, misaligned=False, allow_new=True, max_tries=5, 
         elif k == "goto":
             s["target"] = rng.randrange(n)
             s["width"] = rng.choice([8, 8, 16, 32])
+            s["wild"] = rng.choice([None] * 14 + ["neg", "past"]) if (wild_targets and not last) else None
+            if s["wild"]:
+                s["width"] = rng.choice([16, 32])
         elif k == "if":
             s["target"] = rng.choice([0, i + 1 if i + 1 < n else 0, rng.randrange(n), rng.randrange(n)])
             s["z"] = rng.random() < 0.5
@@ -140,9 +143,45 @@ def gen_method(rng, nslots=None, misaligned=False, allow_new=True, max_tries=5, 
         elif k == "throw":
             s["ins"] = ("throw", rng.randrange(256))
         slots.append(s)
+    # ---- some switch / fill-array-data payloads are placed IN FRONT of the instruction that uses them (negative payload offset; legal, never
+    # produced by dx/d8): goto/16 over; [nop]; payload...; over: <the method>
+    front = {}
+    if front_payloads and not misaligned:
+        chosen = [i for i, s in enumerate(slots) if s["kind"] in ("switch", "fill") and rng.random() < 0.2]
+        if chosen:
+            pre = [{"kind": "goto", "target": None, "width": 16, "wild": None}]
+            pos = 2
+            for i in chosen:
+                s = slots[i]
+                ln = (4 + (len(s["data"]) + 1) // 2) if s["kind"] == "fill" else (4 + 2 * len(s["targets"])) if s["packed"] else (2 + 4 * len(s["targets"]))
+                if pos % 2:
+                    pre.append({"kind": "plain", "ins": ("nop",)})
+                    pos += 1
+                pre.append({"kind": "rawpayload", "for": i, "len": ln})
+                pos += ln
+            K = len(pre)
+            pre[0]["target"] = K
+            for s in slots:
+                if s["kind"] in ("goto", "if"):
+                    s["target"] += K
+                elif s["kind"] == "switch":
+                    s["targets"] = [t + K for t in s["targets"]]
+            for q in pre:
+                if q["kind"] == "rawpayload":
+                    q["for"] += K
+                    front[q["for"]] = None
+            slots = pre + slots
+            for j, q in enumerate(slots):
+                if q["kind"] == "rawpayload":
+                    front[q["for"]] = j
+            n = len(slots)
+    first_real = (max(front.values()) + 1) if front else 0   # tries and handlers stay out of the front data area
+
     # ---- layout (iterate goto widths until they fit)
     def size(s):
         k = s["kind"]
+        if k == "rawpayload":
+            return s["len"]
         if k in ("plain", "return", "throw"):
             return insn_units(s["ins"])
         if k == "goto":
@@ -183,8 +222,20 @@ def gen_method(rng, nslots=None, misaligned=False, allow_new=True, max_tries=5, 
     pay_off = {}
     tail = []  # list of ("pad",) / ("payload", units)
     pos = body_units
+    def payload_units(i, s):
+        if s["kind"] == "fill":
+            return D.fill_array_payload(s["width"], s["data"])
+        rel = [off[t] - off[i] for t in s["targets"]]
+        s["rel"] = rel
+        if s["packed"]:
+            return D.packed_switch_payload(rng.choice([0, -1, 100, -2 ** 31, 2 ** 31 - len(rel)]), rel)
+        return D.sparse_switch_payload(sorted(rng.sample(range(-1000, 1000), len(rel))), rel)
+    for i, j in front.items():
+        pay_off[i] = off[j]
+        slots[j]["units"] = payload_units(i, slots[i])
+        assert len(slots[j]["units"]) == slots[j]["len"], (slots[i], len(slots[j]["units"]), slots[j]["len"])
     for i, s in enumerate(slots):
-        if s["kind"] in ("switch", "fill") and s.get("share") is None:
+        if s["kind"] in ("switch", "fill") and s.get("share") is None and i not in front:
             if pos % 2 and not misaligned:
                 tail.append(("pad", [0]))
                 pos += 1
@@ -214,10 +265,20 @@ def gen_method(rng, nslots=None, misaligned=False, allow_new=True, max_tries=5, 
     ins_list = []  # (unit offset, units, name)
     for i, s in enumerate(slots):
         k = s["kind"]
+        if k == "rawpayload":
+            insns.extend(s["units"])
+            ins_list.append((off[i], s["len"], "payload"))
+            continue
         if k in ("plain", "return", "throw"):
             t = s["ins"]
         elif k == "goto":
-            t = ({8: "goto", 16: "goto/16", 32: "goto/32"}[s["width"]], off[s["target"]] - off[i])
+            rel = off[s["target"]] - off[i]
+            if s.get("wild") == "neg":
+                rel = -off[i] - rng.randint(1, 40)
+            elif s.get("wild") == "past":
+                rel = (total_units_planned - off[i]) + rng.randint(0, 40)
+            s["rel_emitted"] = rel
+            t = ({8: "goto", 16: "goto/16", 32: "goto/32"}[s["width"]], rel)
         elif k == "if":
             rel = off[s["target"]] - off[i]
             if s.get("wild") == "neg":
@@ -246,8 +307,8 @@ def gen_method(rng, nslots=None, misaligned=False, allow_new=True, max_tries=5, 
     tries = []
     truth_tries = []
     ntry = rng.randrange(0, max_tries + 1)
-    if n >= 2 and ntry:
-        cuts = sorted(rng.sample(range(0, n + 1), min(2 * ntry, n + 1)))
+    if n - first_real >= 2 and ntry:
+        cuts = sorted(rng.sample(range(first_real, n + 1), min(2 * ntry, n + 1 - first_real)))
         share_key = 0
         earlier = []  # handler lists of ALL earlier tries: a later try may share any of them (H0, H1, H0 patterns, not only adjacent ones)
         for a, b in zip(cuts[0::2], cuts[1::2]):
@@ -256,8 +317,8 @@ def gen_method(rng, nslots=None, misaligned=False, allow_new=True, max_tries=5, 
             start = off[a]
             end = off[b] if b < n else body_units
             nh = rng.choice([0, 1, 1, 2, 3])
-            hs = [(rng.choice(EXC_TYPES), off[rng.randrange(n)]) for _ in range(nh)]
-            ca = off[rng.randrange(n)] if (nh == 0 or rng.random() < 0.4) else None
+            hs = [(rng.choice(EXC_TYPES), off[rng.randrange(first_real, n)]) for _ in range(nh)]
+            ca = off[rng.randrange(first_real, n)] if (nh == 0 or rng.random() < 0.4) else None
             if nh == 0 and rng.random() < 0.3:
                 ca = 0  # catch-all handler at the very first instruction
             share = None
@@ -284,7 +345,7 @@ def gen_method(rng, nslots=None, misaligned=False, allow_new=True, max_tries=5, 
         here = off[i] * 2
         nxt = (off[i] + size(s)) * 2
         if k == "goto":
-            term[here] = {off[s["target"]] * 2}
+            term[here] = {(off[i] + s["rel_emitted"]) * 2}
         elif k == "if":
             term[here] = {nxt, (off[i] + s["rel_emitted"]) * 2}
         elif k == "switch":
@@ -305,7 +366,7 @@ def gen_method(rng, nslots=None, misaligned=False, allow_new=True, max_tries=5, 
                   "shared_payload": any(s.get("share") is not None for s in slots), "misaligned": any(o % 2 for o in pay_off.values()),
                   "new_ops": any(s["kind"] == "plain" and D.NAME2OP[s["ins"][0]] >= 0xFA for s in slots), "slots": n,
                   "backward": any(s["kind"] in ("goto", "if") and s["target"] <= i for i, s in enumerate(slots)),
-                  "wild_target": any(s.get("wild") for s in slots)}
+                  "wild_target": any(s.get("wild") for s in slots), "payload_in_front": bool(front)}
     return m
 
 
